@@ -85,6 +85,10 @@ def make_script(rng, gen, n_frames, focus=None):
         else:
             f = con.random_frame()
         ops += [f, "view"]
+        if rng.random() < 0.08:
+            # a public control call between two reports: it changes nothing the object model exposes (that comes from the
+            # console's reports only), so nobody is notified and the next report is compared with the last REPORTED state
+            ops += [c10.random_call(rng, inst), "view"]
     return ops, len(hs)
 
 
@@ -208,6 +212,15 @@ def judge(gen, ops, base):
             prev_view = None
             if any_raise and i >= base and o != out2[i]:
                 report("raising-subscriber-disturbs-view", i, "with raising subscribers the object model differs from the run where the same subscribers do not raise")
+            continue
+        if w[0] == "call" and i >= base and prev_text is not None and i + 1 < len(ops) and ops[i + 1] == "view":
+            nxt = next((x for x in out[i + 1] if x.startswith("VIEW ")), None)
+            notes = [x for x in o if x.startswith("NOTIFY")]
+            if nxt is not None and nxt != prev_text and not notes:
+                report("silent-change-by-call", i, "the public call `%s` changed an exposed attribute and no subscriber was invoked" % op)
+            elif notes and nxt == prev_text:
+                report("spurious:call", i, "the public call `%s` invoked subscribers %s although nothing exposed changed" % (op, notes))
+            cnt("calls-judged")
             continue
         if w[0] != "msg":
             continue
